@@ -196,7 +196,11 @@ fn run<F: MathFunction + Clone>(w: &mut dyn Write, id: &mut usize, backend: &str
     let neq = sys.eqs.len() as i64;
     let nfree = gi_name.len() as i64;
     let jac: Vec<_> = evs.iter().filter(|e| e.name == "jacobian").take((neq * nfree) as usize)
-        .map(|e| json!([hooks::field(e, "eq"), gi_name.get(&hooks::field(e, "gi")).cloned().unwrap_or("?".into()), hooks::field(e, "value")])).collect();
+        .map(|e| {
+            let v = hooks::field(e, "value");
+            let v = if cs < 1.0 { bits((f32::from_bits(v as i32 as u32) as f64 / cs) as f32) } else { v };
+            json!([hooks::field(e, "eq"), gi_name.get(&hooks::field(e, "gi")).cloned().unwrap_or("?".into()), v])
+        }).collect();
     if matches!(&r, Err(m) if m.contains("did not return")) {
         SLOW.fetch_add(1, std::sync::atomic::Ordering::Relaxed);
     }
@@ -228,7 +232,7 @@ fn run<F: MathFunction + Clone>(w: &mut dyn Write, id: &mut usize, backend: &str
     res_sorted.sort_by(|a, b| a.0.cmp(&b.0));
     let j = json!({"ev": "solve", "id": *id, "backend": backend, "status": status, "msg": msg, "n": sys.vars.len(),
         "roles": sys.names.iter().enumerate().map(|(j, n)| json!([n, if sys.fixed[j] { "fixed" } else { "free" }, bits((sys.start[j] as f64 * xs) as f32)])).collect::<Vec<_>>(),
-        "eqs": sys.eqs.iter().map(|(c, b)| json!({"coefs": sys.names.iter().zip(c).filter(|(_, c)| **c != 0).map(|(n, c)| json!([n, (*c as f64 * cs) as i64])).collect::<Vec<_>>(), "b": b})).collect::<Vec<_>>(),
+        "eqs": sys.eqs.iter().map(|(c, b)| json!({"coefs": sys.names.iter().zip(c).filter(|(_, c)| **c != 0).map(|(n, c)| json!([n, (*c as f64 * cs.max(1.0)) as i64])).collect::<Vec<_>>(), "b": b})).collect::<Vec<_>>(),
         "cs_log2": cs.log2() as i64, "xs_log2": xs.log2() as i64,
         "jac": jac, "result": res_sorted.iter().map(|(n, x)| json!([n, bits(*x)])).collect::<Vec<_>>(),
         "residual_small": max_res.is_finite() && max_res < 1.0e-3, "satisfied_start": satisfied_start,
@@ -290,11 +294,9 @@ fn main() {
                 break;
             }
             let mut sys = gen_system(&mut rng, n, rep % 4 == 3);
-            (sys.cs, sys.xs) = if rep % 2 == 0 { (1048576.0, 1.0 / 67108864.0) } else { (1.0 / 1024.0, 4096.0) };
-            if sys.cs < 1.0 {
-                // coefficients are recorded as integers: keep them integral
-                sys.cs = 1.0;
-            }
+            // (a system scaled down is recorded with its unscaled integer coefficients; the Jacobian entries the hook
+            // reports are divided by the scale, a power of two, before they are recorded: exact)
+            (sys.cs, sys.xs) = if rep % 2 == 0 { (1048576.0, 1.0 / 67108864.0) } else { (1.0 / 16384.0, 1024.0) };
             run::<VmFunction>(&mut w, &mut id, "vm", &sys);
             if rep % 2 == 0 {
                 run::<JitFunction>(&mut w, &mut id, "jit", &sys);
